@@ -197,6 +197,70 @@ func (p *prover) settled(al *ssa.Alloc, ld ssa.Instruction) bool {
 	return true
 }
 
+// reachingStore: the variable cell al (a local captured by closures, hence a cell) is written only by
+// direct stores in this function (closures only read it); it returns the store whose value the load ld
+// sees on every path: the last of the stores dominating ld, provided no other store can run in between.
+func (p *prover) reachingStore(al *ssa.Alloc, ld ssa.Instruction) *ssa.Store {
+	if al.Referrers() == nil {
+		return nil
+	}
+	var stores []*ssa.Store
+	for _, r := range *al.Referrers() {
+		switch y := r.(type) {
+		case *ssa.Store:
+			if y.Addr != ssa.Value(al) {
+				return nil
+			}
+			stores = append(stores, y)
+		case *ssa.UnOp:
+			if y.Op != token.MUL {
+				return nil
+			}
+		case *ssa.MakeClosure:
+			// the closure must not write the variable
+			f, _ := y.Fn.(*ssa.Function)
+			if f == nil {
+				return nil
+			}
+			for i, b := range y.Bindings {
+				if b != ssa.Value(al) || i >= len(f.FreeVars) {
+					continue
+				}
+				if fr := f.FreeVars[i].Referrers(); fr != nil {
+					for _, u := range *fr {
+						if ld2, ok := u.(*ssa.UnOp); !ok || ld2.Op != token.MUL {
+							if _, isDbg := u.(*ssa.DebugRef); !isDbg {
+								return nil
+							}
+						}
+					}
+				}
+			}
+		case *ssa.DebugRef:
+		default:
+			return nil
+		}
+	}
+	var best *ssa.Store
+	for _, s := range stores {
+		if dominates(s, ld) && (best == nil || dominates(best, s)) {
+			best = s
+		}
+	}
+	if best == nil {
+		return nil
+	}
+	for _, s := range stores {
+		if s == best || dominates(s, best) && !canReach(best, s) {
+			continue
+		}
+		if canReach(s, ld) {
+			return nil
+		}
+	}
+	return best
+}
+
 // uniqueStore returns the only store in the function to the field addressed by fa, if it goes through
 // the same base value (then every load it dominates sees the value it stored).
 func (p *prover) uniqueStore(fa *ssa.FieldAddr) *ssa.Store {
@@ -403,6 +467,11 @@ func (p *prover) lenOf(s ssa.Value) lin {
 		if g, ok := x.X.(*ssa.Global); ok && x.Op == token.MUL {
 			if n, ok := p.globalConst(g, true); ok {
 				return constLin(n)
+			}
+		}
+		if al, ok := x.X.(*ssa.Alloc); ok && x.Op == token.MUL {
+			if st := p.reachingStore(al, x); st != nil {
+				return p.lenOf(st.Val)
 			}
 		}
 	case *ssa.MakeSlice:
